@@ -35,9 +35,9 @@ CONSTANTS
   MaxCuts = %(cuts)d
   ClassSet = %(classes)s
   AnswerSet = %(answers)s
-  FixScanner = %(fix)s
-  FixCursor = %(fix)s
-  Fix5xx = %(fix)s
+  FixScanner = %(fixscanner)s
+  FixCursor = %(fixcursor)s
+  Fix5xx = %(fix5xx)s
 %(tail)s
 CHECK_DEADLOCK FALSE
 """
@@ -46,9 +46,35 @@ PROP_INVS = "INVARIANTS TypeOK InvExactlyOnce InvNoTruncated InvResumeCursor Inv
 ASIS_INVS = "INVARIANTS TypeOK InvCleanFailure InvNoTruncated\nPROPERTIES Terminates"
 
 
-def cfg_text(**kw):
+# ---- THE CODE AS IT STANDS: which of the three repairs of StreamCli.tla /repo has received.
+# These are the constants FixScanner / FixCursor / Fix5xx of every configuration that models the real code
+# (behaviour export gen1/gen2/gen3/gen1L = the code-shaped expectation, mc_asis, the vacuity witnesses) and the
+# code-shaped expectation of the function-level scanEvents table in StreamCliMon.tla (field "fx" of scan lines).
+# Flip an entry to True when the corresponding repair lands in /repo; the verdict predicates do not depend on them.
+#   scanner: scanEvents discards an event not terminated by a blank line when the input ends cleanly
+#   cursor:  the resume cursor (last event id) survives from one response body to the next
+#   5xx:     a transient HTTP status answering a reconnect GET is retried within the budget
+# VERIF_C09_REPAIRED="scanner,cursor,5xx" (any subset, or "none") overrides the table for one run.
+REPAIRED = {"scanner": False, "cursor": False, "5xx": False}
+if os.environ.get("VERIF_C09_REPAIRED") is not None:
+    _on = {x.strip() for x in os.environ["VERIF_C09_REPAIRED"].split(",") if x.strip() and x.strip() != "none"}
+    if _on - set(REPAIRED):
+        raise vlib.MachineryError("VERIF_C09_REPAIRED: unknown repair %s" % sorted(_on - set(REPAIRED)))
+    REPAIRED = {k: k in _on for k in REPAIRED}
+
+
+def tla_bool(b):
+    return "TRUE" if b else "FALSE"
+
+
+def cfg_text(fix=None, **kw):
+    """fix=None: the code as it stands (REPAIRED); fix="TRUE": the design the property asks for (all repairs)."""
     d = dict(kinds='{"post", "sa"}', shapes="AllShapes", schemes='{"dec", "nested"}', ms="{2, 3}", mrs="{0, 1, 2}",
-             cuts=2, classes=ALL_CLASSES, answers=ALL_ANSWERS, fix="FALSE", tail="INVARIANTS Export")
+             cuts=2, classes=ALL_CLASSES, answers=ALL_ANSWERS, tail="INVARIANTS Export")
+    if fix is None:
+        d.update(fixscanner=tla_bool(REPAIRED["scanner"]), fixcursor=tla_bool(REPAIRED["cursor"]), fix5xx=tla_bool(REPAIRED["5xx"]))
+    else:
+        d.update(fixscanner=fix, fixcursor=fix, fix5xx=fix)
     d.update(kw)
     return CFG_TMPL % d
 
@@ -161,6 +187,10 @@ def context_of(inv, e):
         if i < len(bodies) and r["sent"] not in (bodies[i]["c"], bodies[i]["d"]):
             j = i
             break
+    if j is not None and j >= 1 and recon[j]["sent"] == -1:
+        # a reconnect without Last-Event-ID although an id had come across on an earlier body: whatever the
+        # position and kind of the cut, this body ended before its first id'd event was complete
+        return "recut-before-first-id"
     if j is None:
         # the client stopped after the last thing the server did
         if recon and len(recon) == len(bodies) and recon[-1]["outs"] and recon[-1]["outs"][-1] != "ok":
@@ -173,8 +203,10 @@ def context_of(inv, e):
     b = bodies[j]
     if b["knd"] == "none":
         return "nocut"
-    if j >= 1 and b["c"] == bodies[j - 1]["c"] and (b["knd"] == "err" or b["cls"] in ("bnd", "name", "datafull")):
-        return "recut-before-first-id"
+    if j >= 1 and b["c"] == bodies[j - 1]["c"]:
+        # a resumed body that brought no new id across, abandoned with the synthetic error: the same class
+        if b["knd"] == "err" or b["cls"] in ("bnd", "name", "datafull") or effect_of(inv, e) == "gave-up":
+            return "recut-before-first-id"
     return "cut=%s@%s" % (KINDNAME.get(b["knd"], b["knd"]), CLSNAME.get(b["cls"], b["cls"]))
 
 
@@ -191,7 +223,9 @@ BODY_FIELDS = ("from", "primed", "n", "cls", "knd", "al", "c", "d")
 
 def slim(r):
     if r["level"] == "scan":
-        return {k: r[k] for k in ("level", "n", "cls", "knd", "yielded", "truth", "ended")}
+        o = {k: r[k] for k in ("level", "n", "cls", "knd", "yielded", "truth", "ended")}
+        o["fx"] = REPAIRED["scanner"]
+        return o
     o = {k: r[k] for k in MON_FIELDS}
     o["bodies"] = [{k: b[k] for k in BODY_FIELDS} for b in r["bodies"]]
     o["recon"] = [{"sent": x["sent"], "outs": x["outs"]} for x in r["recon"]]
@@ -426,6 +460,7 @@ def _run(tier, seed, replay, ctl):
         by_line.setdefault(f["line"], []).append(f["monfail"])
 
     # coverage
+    v.cov["model_of_the_code"] = {"FixScanner": REPAIRED["scanner"], "FixCursor": REPAIRED["cursor"], "Fix5xx": REPAIRED["5xx"]}
     v.cov["phase_wall_s"] = {"tlc_design_and_export": round(t_tlc, 1), "go_replay": round(t_go, 1), "monitor": round(mres.wall, 1)}
     v.cov["traces_validated_against_impl"] = len(rows)
     v.cov["evaluations"] = len(rows)
